@@ -144,6 +144,12 @@ SEEDS = {
     "C14g-final-renormalisation-by-planned-step": ("C14", "--RenormalizeCharge n > 0 and an interrupt that stops the loop at a step k with (k%n==0) != (laststep%n==0): the final block decides about renormalising from the planned end step, the last record is off by the accumulated charge drift", []),
     "C10g-final-wake-before-renormalisation": ("C10", "an impedance, RenormalizeCharge n > 0 dividing the number of executed steps, and noticeable charge drift (tight phase space, wide start): in the final block the wake is updated before the renormalisation, the last record's wake belongs to the un-normalised profile", ["C12", "C14"]),
     "C12g-output-probe-truncates-start-file": ("C12", "the output name is the file the run starts from (-i run.h5 -o run.h5, continuing in place): an early 'can we write there' probe truncates it before it is read - the result depends on what the output file is called", ["C11"]),
+    "C15g-stochastic-damping-rewritten-rounds-twice": ("C15", "a very small damping decrement (below about 1e-6: many steps per period, long damping time) and millions of steps with the stochastic tracker: an algebraically identical rewrite y*(1-d)+y0*d rounds twice in single precision, the ensemble damps at the wrong rate towards the wrong row", []),
+    "C16g-collimator-alone-flag-dropped": ("C16", "the collimator as the ONLY selected contribution (UseCSR=false, no wall, no file, gap != 0): the factory adds it but no longer marks the result as changed and returns nothing", ["C10", "C05"]),
+    "C17g-isfinite-guard-int-overflow": ("C17", "a kick of 2^31 cells or more (e.g. -N 4 on the default 256 grid: tan(pi/2) times the distance from the centre): the range guard became isfinite(), the float -> int32 conversion is undefined and apply() overflows a signed subtraction (UBSan only)", ["C01"]),
+    "C18g-empty-profile-skip-leaves-spectrum": ("C18", "updateCSR() on a field object for a bunch that carried charge in an earlier call and whose current profile is zero in every bin: an 'empty bucket' shortcut skips the transform and leaves the spectrum row of the last populated profile", ["C07"]),
+    "C19g-hoisted-phase-term-not-scaled": ("C19", "linear RF with amplitude noise AND a non-zero phase offset in the same step: a loop-hoisting tidy-up scales the slope by the amplitude factor but no longer the phase term, the applied phase is phi/A while the record says phi", []),
+    "C20g-nonregular-config-path-ignored": ("C20", "--config naming an existing path that is not a regular file (a directory, a FIFO): neither loaded nor refused, the run goes ahead with defaults", []),
     "C10-": ("C10", "", []),
     "C17-": ("C17", "", []),
 }
